@@ -341,8 +341,12 @@ Definition card := list string.
 Definition cook (w : nat) (l : string) : string := rstrip (takeS w (expandtabs TABSIZE l)).
 Definition cooked (w : nat) (c : card) : list string := map (cook w) c.
 
-Definition amp3 : string := String sp (String "&"%char (String nl "")).
-Definition amp_end (w : nat) (l : string) : bool := ends_with amp3 (takeS w (expandtabs TABSIZE l)).
+(* continue_input after line l, when it was cont before: a comment line with its c in columns 1-5 leaves it alone,
+   any other line sets it when it has no '$' and, right-stripped, ends in " &" *)
+Definition next_cont (w : nat) (cont : bool) (l : string) : bool :=
+  if andb (is_comment (expandtabs TABSIZE l))
+          (negb (all_space (takeS BLANK_SPACE_CONTINUE (expandtabs TABSIZE l))))
+  then cont else amp_data (takeS w (expandtabs TABSIZE l)).
 
 Definition comment_line (l : string) : bool :=
   let x := expandtabs TABSIZE l in andb (negb (all_space x)) (is_comment x).
@@ -355,8 +359,8 @@ Definition start_line (l : string) : bool :=
  (andb (negb (all_space (takeS BLANK_SPACE_CONTINUE x)))
        (negb (contains "#"%char (takeS BLANK_SPACE_CONTINUE x))))).
 
-(* the lines after the first one: comment lines, lines indented by five blanks, lines behind a " &";
-   the card does not end on a " &" *)
+(* the lines after the first one: comment lines, lines indented by five blanks, lines behind a line that ends
+   in " &"; the card does not end on such a line *)
 Fixpoint cont_lines (w : nat) (cont : bool) (ls : list string) : bool :=
   match ls with
   | [] => negb cont
@@ -365,13 +369,13 @@ Fixpoint cont_lines (w : nat) (cont : bool) (ls : list string) : bool :=
       andb (negb (all_space x))
      (andb (orb (all_space (takeS BLANK_SPACE_CONTINUE x)) (orb cont (is_comment x)))
      (andb (negb (andb (contains "#"%char (takeS BLANK_SPACE_CONTINUE x)) (negb (is_comment x))))
-           (cont_lines w (amp_end w l) r)))
+           (cont_lines w (next_cont w cont l) r)))
   end.
 
 Definition card_ok (w : nat) (c : card) : bool :=
   match c with
   | [] => false
-  | l :: r => andb (start_line l) (cont_lines w (amp_end w l) r)
+  | l :: r => andb (start_line l) (cont_lines w (next_cont w false l) r)
   end.
 
 (* the first card of a block may carry comment lines in front *)
